@@ -146,7 +146,15 @@ RECURSIVE PopToLoop(_)
 PopToLoop(K) ==
   IF K = << >> THEN [found |-> FALSE, w |-> CNone, rest |-> << >>]
   ELSE IF Head(K).k = "loop" THEN [found |-> TRUE, w |-> Head(K).w, rest |-> Tail(K)]
+  ELSE IF Head(K).k = "fn" THEN [found |-> FALSE, w |-> CNone, rest |-> << >>]     \* a loop of the caller is not visible in the callee
   ELSE PopToLoop(Tail(K))
+
+RECURSIVE PopToFn(_)
+\* the frames after the marker of the innermost active call, and the name its result is bound to
+PopToFn(K) ==
+  IF K = << >> THEN [found |-> FALSE, ret |-> "", rest |-> << >>]
+  ELSE IF Head(K).k = "fn" THEN [found |-> TRUE, ret |-> Head(K).ret, rest |-> Tail(K)]
+  ELSE PopToFn(Tail(K))
 
 CondHolds(c, loc) == \* -> "t" | "f" | error text
   IF c.k = "true" THEN "t" ELSE IF c.k = "false" THEN "f"
@@ -230,6 +238,18 @@ Run(D, K, loc, atStart, fuel) ==
                    ELSE IF n = 0 THEN (IF s.allow_zero = 1 THEN Run(D, K1, loc, FALSE, fuel - 1)
                                        ELSE [K |-> K, loc |-> [loc EXCEPT !.err = "undefined"]])   \* precondition violated
                    ELSE [K |-> <<[k |-> "wait", left |-> n]>> \o K1, loc |-> loc]
+           [] s.k = "ucall" ->
+                \* a call of a function / an awaited sub-coroutine defined in the design: the callee's body runs in place, with
+                \* its parameters bound to the argument objects (s.body is the body with that binding applied, adl.ucall);
+                \* entering and leaving cost no clock, so an await at the start of a callee that is the very first action still
+                \* polls immediately
+                Run(D, <<SeqFrame(s.body), [k |-> "fn", ret |-> s.ret]>> \o K1, loc, atStart, fuel - 1)
+           [] s.k = "return" ->     \* "continue/break/return cost none": ends the innermost call, from any depth of loops / branches
+                LET v == IF s.has = 1 THEN CEval(s.e, ReadEnv(loc)) ELSE CNone
+                    p == PopToFn(K1)
+                IN IF ~p.found THEN [K |-> K, loc |-> [loc EXCEPT !.err = "reject:return outside function"]]
+                   ELSE IF s.has = 1 /\ CIsErr(v) THEN [K |-> K, loc |-> [loc EXCEPT !.err = v.v]]
+                   ELSE Run(D, p.rest, IF p.ret # "" /\ s.has = 1 THEN [loc EXCEPT !.tmp = (p.ret :> v) @@ @] ELSE loc, FALSE, fuel - 1)
            [] s.k = "break" ->      \* "continue/break/return cost none"
                 LET p == PopToLoop(K1) IN
                 IF ~p.found THEN [K |-> K, loc |-> [loc EXCEPT !.err = "reject:break outside loop"]]
@@ -244,6 +264,7 @@ Run(D, K, loc, atStart, fuel) ==
          IF c \notin {"t", "f"} THEN [K |-> K, loc |-> [loc EXCEPT !.err = c]]
          ELSE IF c = "t" THEN Run(D, <<SeqFrame(f.w.body), [k |-> "loop", w |-> f.w]>> \o rest, loc, FALSE, fuel - 1)
          ELSE Run(D, rest, loc, FALSE, fuel - 1)
+    [] f.k = "fn" -> Run(D, rest, loc, atStart, fuel - 1)      \* the callee's body ended without a return statement
     [] f.k = "loop" ->   \* "a loop back-edge ... costs one clock"
          [K |-> <<[k |-> "head", w |-> f.w]>> \o rest, loc |-> loc]
     [] f.k = "poll" ->
@@ -268,6 +289,7 @@ RECURSIVE StmtTargets(_, _), StmtsTargets(_, _, _)
 StmtTargets(s, modes) ==
   CASE s.k = "assign" -> IF s.mode \in modes THEN {s.t.obj} ELSE {}
     [] s.k = "local" -> IF "next" \in modes THEN {s.n} ELSE {}
+    [] s.k = "ucall" -> StmtsTargets(s.body, 1, modes)
     [] s.k = "forchain" -> IF s.mode \in modes THEN {s.t.obj} ELSE {}      \* mode "bind" defines an intermediate, no object
     [] s.k = "match" -> StmtsTargets(s.default, 1, modes) \cup UNION {StmtsTargets(s.cases[i].body, 1, modes) : i \in 1..Len(s.cases)}
     [] s.k = "if" -> StmtsTargets(s.th, 1, modes) \cup StmtsTargets(s.el, 1, modes)
